@@ -11,7 +11,7 @@
 //! output = `kind n=<len> k=<chunks> | M=<M>:<res>:ret=<max retained>:use=<max usage|->:heap=<max live heap growth>:out=<bytes out> …`
 //!   res: ok | mem@<call> | other@<call> | PANIC-new | panic@<call>   (call k = `end`)
 //! oracle (appended as ` ||ORACLE:C10:<site> …`, first violation only):
-//!   constructor-panic         the constructor panics (was finding F5 for prealloc > M; repaired in /repo 6a70b0c)
+//!   constructor-panic         the constructor panics (was finding F5 for prealloc > M; repaired in /repo 6823fd9)
 //!   retained-exceeds-max      bytes_in − bytes_out > M after a successful write
 //!   text-decoder-held-uncharged   same, but the retained bytes are exactly the incomplete UTF-8
 //!                             sequence at the end of the input so far (≤ 3 bytes, kept by the
@@ -25,8 +25,6 @@
 //!                             (memory kept for open elements, not for buffered input)
 //!   panic                     a call panicked
 //!   not-monotone              a larger limit stops earlier / differently than a smaller one
-//!   not-monotone-across-prealloc   same, with the smaller limit < prealloc ≤ the larger limit (the smaller
-//!                             one runs without a preallocated buffer, the larger one with it charged)
 //!   output-differs            two fully successful runs produced different output
 //!   not-deterministic         the same case run twice stopped differently / produced different output
 use crate::util::*;
@@ -411,14 +409,8 @@ pub fn run(line: &str) -> String {
                 _ => r.stop.progress(ncalls) < p.stop.progress(ncalls),
             };
             if bad && oracle.is_none() {
-                // Since /repo 6a70b0c a preallocation that does not fit the limit is dropped, so a
-                // limit just below `prealloc` starts with usage 0 while a limit at/above it starts
-                // with `prealloc` already charged: the smaller limit can succeed where the larger fails.
-                let site = if *pm < prealloc && prealloc <= m {
-                    "not-monotone-across-prealloc"
-                } else {
-                    "not-monotone"
-                };
+                // (also across the preallocation size: Arena::new clamps it to the limit, /repo 6823fd9)
+                let site = "not-monotone";
                 oracle = Some(format!(
                     "{site} M={pm}:{} but M={m}:{} prealloc={prealloc}",
                     p.stop.show(),
